@@ -80,6 +80,10 @@ def tagsOf (sc : Scenario) (steps : List IStep) (nd : Bool) : List String :=
   (if sc.reqs.length ≥ 2 then ["multi"] else ["single"]) ++ (if nev == 0 then ["no-attempt"] else []) ++
   (if sc.cfg.mode == 1 then ["wlc"] else if sc.cfg.mode == 2 then ["sticky"] else ["wrr"]) ++
   (if sc.cfg.failNum > 0 then ["health"] else []) ++
+  (if sc.reqs.any fun r => r.finish.any (· == .finish) then ["reqfin-finish"] else []) ++
+  (if sc.reqs.any fun r => r.finish.any (· == .panic) then ["reqfin-panic"] else []) ++
+  (if sc.reqs.any fun r => r.finish.any (· == .other) then ["reqfin-other"] else []) ++
+  (if sc.reqs.any fun r => r.pre.isSome then ["before-location-end"] else []) ++
   (if invs.any fun s => s.evs.any fun e => e.pick != e.label then ["replaced"] else [])
 
 def runProxy (op impl : String) : Ans :=
